@@ -167,3 +167,66 @@ Theorem bounded_prefix_refuted :
   b_seek_ts ex_o 16384 (flat [line]) 1709294400500000000 = Found 628 0 /\
   b_seek_ts (fun v => 0) 16384 (flat [line]) 1709294400500000000 = EmptyStamp.
 Proof. vm_compute. repeat split; reflexivity. Qed.
+
+(** * Round 8: seekRecord and the wall clock
+
+    [seek_record_st] is [seek_record] of Model/QLog.v (the function C07's
+    paging theorems are about) with the reader kept on failure. *)
+Lemma seek_record_st_eq me bf older r :
+  seek_record me bf older r =
+    (if (fst (seek_record_st me bf older r) =? 0)%Z then Some (snd (seek_record_st me bf older r)) else None).
+Proof.
+  unfold seek_record, seek_record_st. destruct older as [ts|]; [|reflexivity].
+  destruct (reader_seek_ts me ts r) as [res r']. destruct res; try reflexivity.
+  destruct (reader_read_next me bf r') as [[x|] r'']; reflexivity.
+Qed.
+
+(** seekRecord to the stamp of a stored record (files as in
+    C20_two_files_seek_present; NO premise relates the stamps to any clock):
+    it succeeds, and reading on returns the records just older than the
+    requested one, then the older files. *)
+Theorem seek_record_present me buf (fs : list qfile) i f t l ts :
+  (0 < me <= buf)%Z -> Forall (file_ok me) fs ->
+  nth_error fs i = Some f -> sorted_ts f -> nth_error f t = Some (l, ts) ->
+  (forall j f', (i < j)%nat -> nth_error fs j = Some f' -> all_newer ts f') ->
+  exists r'', seek_record_st me buf (Some ts) (new_reader fs) = (0%Z, r'') /\
+    forall fuel, (length (tagged i (firstn t f) ++ all_rev_upto i fs) < fuel)%nat ->
+      reader_read_all me buf fuel r'' = tagged i (firstn t f) ++ all_rev_upto i fs.
+Proof.
+  intros Hme Hfs Hi Hs Ht Hn.
+  destruct (reader_seek_present me buf fs i f t l ts Hme Hfs Hi Hs Ht Hn) as (r' & r'' & x & E1 & E2 & E3).
+  exists r''. split; [|exact E3]. unfold seek_record_st. rewrite E1, E2. reflexivity.
+Qed.
+
+(** The clock is no input: whatever two clock readings, the same result.  True
+    by construction of the model ([seek_record_at] ignores its first
+    argument); that the CODE agrees is checked by the histories over files
+    whose stamps lie after the wall clock. *)
+Definition seek_record_at (now : Z) := seek_record_st.
+
+Theorem seek_record_ignores_clock now1 now2 me bf older r :
+  seek_record_at now1 me bf older r = seek_record_at now2 me bf older r.
+Proof. reflexivity. Qed.
+
+(** The variant that skips the look-up for a cursor later than the clock is
+    refuted: three records stamped one, two and three hours after [now]; the
+    cursor is the second; the code goes on with the first (the one just older),
+    the variant with the third (the newest): the requested record and a newer
+    one are served again. *)
+Definition ex_now : Z := 1700000000000000000.
+Definition hour : Z := 3600000000000.
+Definition ex_future : list qfile := [[(60, ex_now + hour); (70, ex_now + 2 * hour); (80, ex_now + 3 * hour)]]%Z.
+
+Theorem seek_record_clock_refuted :
+  Forall (file_ok 16384) ex_future /\
+  (let (c, r) := seek_record_st 16384 1638400 (Some (ex_now + 2 * hour)%Z) (new_reader ex_future) in
+   (c, fst (reader_read_next 16384 1638400 r))) = (0, Some (0, 0, 60))%Z /\
+  (let (c, r) := seek_record_clock ex_now 16384 1638400 (Some (ex_now + 2 * hour)%Z) (new_reader ex_future) in
+   (c, fst (reader_read_next 16384 1638400 r))) = (0, Some (0, 132, 80))%Z /\
+  (* with a clock later than the stamps the variant agrees with the code *)
+  seek_record_clock (ex_now + 4 * hour) 16384 1638400 (Some (ex_now + 2 * hour)%Z) (new_reader ex_future)
+    = seek_record_st 16384 1638400 (Some (ex_now + 2 * hour)%Z) (new_reader ex_future).
+Proof.
+  split; [|vm_compute; repeat split; reflexivity].
+  repeat constructor; vm_compute; intuition congruence.
+Qed.
